@@ -1,6 +1,9 @@
 // Correspondence harness for nitro::format / nitro::except (C08).
 // Typed argument token: one type letter + hex of the text the generator expects the stream
-// representation to be.  s = std::string, p = const char*, i = int, l = long long, c = char, d = double.
+// representation to be.  s = std::string, p = const char*, i = int, l = long long, c = char, d = double,
+// h = a user type whose inserter switches the stream to hex/showbase and leaves it so, f = a user type whose
+// inserter sets fixed/precision(2) and leaves it so (inserters written like that are common; the text of the
+// *other* arguments must not depend on them).
 #include "common.hpp"
 
 #include <nitro/except/raise.hpp>
@@ -8,7 +11,26 @@
 
 #include <variant>
 
-using V = std::variant<int, long long, char, double, std::string, const char*>;
+#include <iomanip>
+
+struct Hex
+{
+    unsigned v;
+};
+static std::ostream& operator<<(std::ostream& o, const Hex& h)
+{
+    return o << std::hex << std::showbase << h.v;
+}
+struct Fix2
+{
+    double v;
+};
+static std::ostream& operator<<(std::ostream& o, const Fix2& f)
+{
+    return o << std::fixed << std::setprecision(2) << f.v;
+}
+
+using V = std::variant<int, long long, char, double, std::string, const char*, Hex, Fix2>;
 
 struct Arg
 {
@@ -45,6 +67,12 @@ static std::vector<std::unique_ptr<Arg>> parse_args(const std::string& field)
             break;
         case 'd':
             a->v = std::stod(text);
+            break;
+        case 'h':
+            a->v = Hex{ static_cast<unsigned>(std::stoul(text, nullptr, 16)) };
+            break;
+        case 'f':
+            a->v = Fix2{ std::stod(text) };
             break;
         default:
             throw std::runtime_error("bad arg type");
